@@ -328,7 +328,7 @@ func c05PoolBFS(driver string, depth int) vh.Unit {
 						return
 					}
 					_, err := w.pw.Pool.Update(context.Background(), w.last.sig, id, w.last.nonce, w.last.req)
-					if _, refused := err.(pool.VerifyFailedError); !refused && judge {
+					if refused := vh.IsRefused(err); !refused && judge {
 						u.Observe("respelled honoured")
 						u.Violate("pool-nonce/update/replay-honoured-under-respelled-identity",
 							fmt.Sprintf("history %v: the honoured vipnode_update of A, submitted again with its node id spelled %q..., passed verification (err=%v)", hist, id[:6], err), vh.BFSReplay(name, hist))
@@ -350,7 +350,7 @@ func c05PoolBFS(driver string, depth int) vh.Unit {
 					req := pool.UpdateRequest{}
 					sig := id.SignNode("vipnode_update", n, req)
 					_, err = w.pw.Pool.Update(context.Background(), sig, id.NodeID, n, req)
-					if _, refused := err.(pool.VerifyFailedError); !refused && id == A {
+					if refused := vh.IsRefused(err); !refused && id == A {
 						w.last = &captured{sig, n, req}
 					}
 				case "updold": // signed in the deprecated format (old agents)
@@ -365,7 +365,7 @@ func c05PoolBFS(driver string, depth int) vh.Unit {
 					err = w.pw.Payment.Withdraw(context.Background(), W.SignWallet("pool_withdraw", n), W.Wallet, n)
 				}
 				want := w.model.accept(idname, n)
-				_, refused := err.(pool.VerifyFailedError)
+				refused := vh.IsRefused(err)
 				got := !refused
 				if judge {
 					u.Observe(fmt.Sprintf("%s %s %v", f[0], f[2], got))
@@ -416,7 +416,7 @@ func c05PoolRace(driver string, copies, bound int) vh.Unit {
 			Check: func(s *vsched.Sched) (string, string) {
 				honoured := 0
 				for _, e := range res {
-					if _, refused := e.(pool.VerifyFailedError); !refused {
+					if refused := vh.IsRefused(e); !refused {
 						honoured++
 					}
 				}
